@@ -572,6 +572,8 @@ def reuse_actions(system, st):
         out += [('refill', c, f) for c, f in refills[:nr]]
         cur = st.extra.get('pkg') or st.config[0]
         out.append(('pkg', other if cur == st.config[0] else st.config[0]))
+        # in-place scaling: composition identical (bit-identical for powers of two), magnitude changed, same specifications again
+        out += [('scale', 2.0), ('scale', 0.5)] + ([] if system.tier == 'quick' else [('scale', 3.0)])
     return out
 
 def reuse_oracle(system, st, action, before, obs):
